@@ -740,7 +740,9 @@ impl LZDiff {
 
     /// Check if byte is a literal
     fn is_literal(&self, c: u8) -> bool {
-        (b'A'..=b'A' + 20).contains(&c) || c == b'!'
+        // Literals are 'A' + symbol code; the unknown-letter code is 30 (CNV_NUM),
+        // so the accepted range must reach 'A' + 30 or such targets cannot be decoded.
+        (b'A'..=b'A' + 30).contains(&c) || c == b'!'
     }
 
     /// Decode a literal
